@@ -1,6 +1,10 @@
 package sim
 
-import "encoding/json"
+import (
+	"encoding/json"
+	"os"
+	"time"
+)
 
 func mustJSON(v interface{}) string {
 	b, err := json.Marshal(v)
@@ -23,4 +27,33 @@ func contains(l []string, s string) bool {
 		}
 	}
 	return false
+}
+
+// Governor for the tiers that run the real binary under strace: in some
+// environments a traced process is slower by an order of magnitude, and the
+// sampled share of scenarios then eats the whole budget of a batch. In batch
+// mode these tiers may use at most a fixed share of the worker's wall time; a
+// sample that would exceed it is skipped and counted (probe
+// "strace-tier-skipped:time-share"). Replays, minimisation and the self-tests
+// are never governed (what a case did must be done again).
+var (
+	govStart = time.Now()
+	govSpent time.Duration
+)
+
+func straceTierAllowed(o *Outcome) bool {
+	if m := os.Getenv("VERIF_MODE"); m != "" && m != "batch" {
+		return true
+	}
+	if govSpent <= time.Duration(0.3*float64(time.Since(govStart)))+3*time.Second {
+		return true
+	}
+	o.Stats.probe("strace-tier-skipped:time-share")
+	return false
+}
+
+func straceTierTimed(f func()) {
+	t0 := time.Now()
+	f()
+	govSpent += time.Since(t0)
 }
